@@ -50,8 +50,8 @@ chk("C16", "model_checking",
     "explicit-state BFS to fixpoint over real branch states with reference model + exhaustive routing product at ABCI level", "DESIGN.md §5 C16", "seqx-branch")
 
 chk("C01", "model_checking",
-    "Environment exploration (envx) of the real application built with a generated overlay that routes every Go map range, wall-clock read and go statement of the consensus packages of the current tree through choice hooks: for every history of a 17-kind block alphabet (single txs, order-sensitive kinds paired within a block and across two blocks) every environment policy with at most 1 (thorough: 2) non-default answers over the sites actually hit (iteration order sorted/reversed/rotated per map-range site, wall clock = block time/2000/2100 per site, node min-gas-prices, EVM tracer, a CheckTx/Simulate/eth_call between FinalizeBlock and Commit) is executed on a fresh app, plus fresh-process vs warm-process runs; all executions of one history must give the same AppHash, tx results (code, data, gas wanted/used), events and validator updates.",
-    "Nondeterminism below evermint (cosmos-sdk, IAVL, CometBFT, go-ethereum fork, Go runtime) is not owned; an answer is fixed per site for a whole execution; three orders per map range, not all permutations. The overlay is generated from the working tree at check time (typed rewrite, cmd/instr), nothing is committed to /repo.",
+    "Environment exploration (envx) of the real application built with a generated overlay that routes every Go map range, wall-clock read and go statement of the consensus packages of the current tree through choice hooks: for every history of a 20-kind block alphabet (single txs, order-sensitive kinds paired within a block and across two blocks) every environment policy with at most 1 (thorough: 2) non-default answers over the sites actually hit (iteration order sorted/reversed/rotated per map-range site, wall clock = block time/2000/2100 per site, node min-gas-prices, every accepted evm.tracer value, a CheckTx/Simulate/eth_call between FinalizeBlock and Commit) is executed on a fresh app, plus fresh-process vs warm-process runs; all executions of one history must give the same AppHash, tx results (code, data, gas wanted/used), events and validator updates. Concurrent-request pass: the EVM execution files get a scheduling point before every statement; for a small history set x 5 request kinds x 2 (3) orders of the go-ethereum fork's precompile map, a request (eth_call / estimateGas / CheckTx at latest or latest-1) is served completely at every point FinalizeBlock passes (preemption bound 1) and the block results must equal the undisturbed run.",
+    "Nondeterminism below evermint (cosmos-sdk, IAVL, CometBFT, go-ethereum fork except its custom-precompile map iteration, Go runtime) is not owned; an answer is fixed per site for a whole execution; three orders per map range, not all permutations; concurrent requests are atomic at one point (no torn overlaps), points only in x/evm/keeper, x/evm/vm, x/cpc/keeper files. The overlay is generated from the working tree at check time (typed rewrite, cmd/instr), nothing is committed to /repo.",
     "deviation-bounded exhaustive exploration of environment answers (map order, clock, config, query interleaving) over bounded block histories of the real app, instrumented by a generated overlay",
     "DESIGN.md §3.3, §4, §5 C01", "envx")
 
